@@ -479,6 +479,8 @@ def run_check(prop, tier, seed, budget_scale=1.0):
                 k = (v["cls"], s)
                 if k not in found:
                     found[k] = {"plan": plan, "key": key, "count": 0, "idx": idx, "detail": v.get("detail", ""), "opkind": v.get("opkind", "")}
+                elif found[k]["plan"] is None and plan is not None:
+                    found[k].update({"plan": plan, "key": key, "idx": idx, "detail": v.get("detail", "")})
                 elif key[1] == "shipped" and found[k]["key"][1] != "shipped" and plan is not None:
                     # an occurrence on the shipped configuration needs no cross-configuration confirmation: prefer it
                     found[k].update({"plan": plan, "key": key, "idx": idx, "detail": v.get("detail", "")})
